@@ -192,8 +192,9 @@ CHECKS = {
                   "constant folding of the operator impls for oddness, shared terminal-return rule of C05, folding of the piece-square index term for both colours over 64 squares",
         text="Decides the negation clause: evaluate(s, White) = -evaluate(s, Black) for every position, because the result is 0 plus odd contributions "
              "(f(p) - f(!p)) * weight with perspective-independent weights and odd scaling, the stop flag is shared, and terminal returns are +/- mate by perspective "
-             "or 0. One mirror clause is decided as well: the piece-square table index of a white piece on s equals that of a black piece on the mirrored square. "
-             "Mirror symmetry of the remaining heuristic terms is numeric/geometric and NOT decided.",
+             "or 0. Mirror clauses decided as well: the piece-square table index of a white piece on s equals that of a black piece on the mirrored square (T1), "
+             "and every registered term function is colour-parametric - no colour constant, no branch on which colour the perspective is, no direction helper "
+             "outside the piece-square orientation (M1). Mirror symmetry of the numeric content of the terms is NOT decided.",
         design_ref="DESIGN.md section 4, C13",
         note=TB_COMMON + " The term functions are assumed to use `perspective` only to select the side."),
     "C07": dict(
